@@ -25,7 +25,7 @@ Tr == Traces[tid]
 Ev == Tr.ev
 N == Len(Ev)
 
-MemoKeys == {"colors", "colorshex", "name"}
+MemoKeys == {"colors", "colorshex", "colorsnohex", "name"}  \* get_fg_bg_colors(), (hex=True), (hex=False)
 
 M0(tr) ==
   [env |-> tr.env, swap |-> FALSE, queries |-> TRUE, basis |-> <<>>,
